@@ -1,5 +1,171 @@
-(* Props/C02.v -- property theorems for C02 (being written). *)
+(* Props/C02.v -- property C02: fragmented packets reassemble to exactly the original, for every
+   size, every arrival order, interleaved groups; a group with a missing fragment delivers nothing;
+   a completed group leaves no residue.
+
+   All statements are about Model.Frag (split / write: Session.write + queue; recv / run: receive(),
+   cluster.add, cluster.done; sweep: markSweepFrags) -- the definitions `Model.Frag.check` evaluates
+   against the implementation on every run.  They hold for ALL limits F, payload types and payloads,
+   group ids, histories (lists of packet arrivals and wake-ups) -- induction, no bounds.
+
+   Hypotheses that the code forces (each has a `_refuted` witness below, and a recorded finding):
+     - the fragment of position 0 arrives first            (receive(): unknown group, Position > 0 => SvDrop)
+     - fewer than fragMaxMisses wake-ups between two successive arrivals of the group (markSweepFrags)
+     - every fragment fits into the send queue              (queue(): non-blocking send)
+   and HeaderSize <= F (every build has F >= 262144). *)
+From Coq Require Import Permutation.
 From XMT Require Import Base.Prelude Model.Frag Proofs.Frag.
-Theorem C02_placeholder : True.
-Proof. exact placeholder_true. Qed.
-Print Assumptions C02_placeholder.
+
+(* ---- the sender: the split is exact ------------------------------------------------------------ *)
+(* count = Size/F + 1; fragment i carries position i (mkfrag: u16 i), the announced count, the id,
+   job, device and group, no tags, and exactly the bytes [i*F, (i+1)*F) of the payload (so at most F);
+   the payloads concatenate to the original; fragment i is empty iff the payload ends at or before
+   i*F; the count is never too small *)
+Theorem C02_split_exact : forall (A : Type) (F g : Z) (n : packet A), 0 < F -> 0 <= p_tags n ->
+  len (split F g n) = nfrag F n /\
+  (forall i, 0 <= i < nfrag F n ->
+     nth_error (split F g n) (Z.to_nat i) = Some (mkfrag n g (nfrag F n) i (take F (drop (i * F) (p_data n))))) /\
+  concat (map p_data (split F g n)) = p_data n /\
+  Forall (fun f => len (p_data f) <= F /\ p_id f = p_id n /\ p_job f = p_job n /\ p_dev f = p_dev n /\
+                   p_tags f = 0 /\ f_group (p_flags f) = g /\ f_len (p_flags f) = u16 (nfrag F n) /\
+                   has_frag (p_flags f) = true) (split F g n) /\
+  (forall i, 0 <= i -> (is_nil (take F (drop (i * F) (p_data n))) = true <-> len (p_data n) <= i * F)) /\
+  (len (p_data n) + F - 1) / F <= nfrag F n.
+Proof. exact thm_split_exact. Qed.
+Print Assumptions C02_split_exact.
+
+(* write() queues exactly the (stamped) split whenever the queue has room for all of it *)
+Theorem C02_write_queues_split : forall (A : Type) (F cap : Z) (w : bool) (local qlen g : Z) (n : packet A),
+  0 < F -> 0 <= p_tags n -> F < size n ->
+  (w = true \/ qlen + (nfrag F n - 1) < cap) -> nfrag F n <= cap - qlen ->
+  write F cap w local qlen g n = (0, map (stamp local) (split F g n)).
+Proof. exact thm_write_queues_split. Qed.
+Print Assumptions C02_write_queues_split.
+
+(* full statement without the room hypothesis:
+     forall ..., write F cap true local qlen g n = (0, l) -> l = map (stamp local) (split F g n)
+   is false of the model (= the code): *)
+Theorem C02_split_fits_queue_refuted : exists (F cap local qlen g : Z) (n : packet Z),
+  0 < F /\ F < size n /\ qlen + nfrag F n > cap /\
+  fst (write F cap true local qlen g n) = 0 /\ len (snd (write F cap true local qlen g n)) < nfrag F n /\
+  fst (write F cap false local qlen g n) = ErrFullBuffer.
+Proof. exact thm_split_fits_queue_refuted. Qed.
+Print Assumptions C02_split_fits_queue_refuted.
+
+(* ---- the receiver ---------------------------------------------------------------------------------
+   evs is ANY history of the receiving Session: arrivals of arbitrary packets (other groups, other
+   kinds, malformed) and wake-ups, in any interleaving; the arrivals that carry group g are, in some
+   order with position 0 first, exactly the fragments of n.  Then the receiver's reaction to those
+   arrivals is: nothing, ..., nothing, deliver (the original: id, job, device, payload, flag bits
+   with FlagFrag cleared) -- exactly once, at the last fragment -- and the group is absent from the
+   table afterwards. *)
+Theorem C02_reassemble_any_order : forall (A : Type) (F g self : Z) (n : packet A) (evs : list (ev A)) (st0 : state A),
+  HeaderSize <= F -> 0 <= p_tags n -> F < size n -> nfrag F n <= 65535 -> addressed self n ->
+  NoDup (map fst st0) -> lookup g st0 = None ->
+  Permutation (own_pkts g evs) (split F g n) ->
+  hd_error (own_pkts g evs) = hd_error (split F g n) ->
+  paced g evs = true ->
+  own_outs g evs (snd (run self st0 evs)) = repeat ONone (Z.to_nat (nfrag F n - 1)) ++ [ODeliver (reassembled n)] /\
+  lookup g (fst (run self st0 evs)) = None.
+Proof. exact thm_reassemble_any_order. Qed.
+Print Assumptions C02_reassemble_any_order.
+
+Theorem C02_no_residue : forall (A : Type) (F g self : Z) (n : packet A) (evs : list (ev A)),
+  HeaderSize <= F -> 0 <= p_tags n -> F < size n -> nfrag F n <= 65535 -> addressed self n ->
+  Permutation (own_pkts g evs) (split F g n) ->
+  hd_error (own_pkts g evs) = hd_error (split F g n) ->
+  paced g evs = true ->
+  ~ In g (map fst (fst (run self [] evs))).
+Proof. exact thm_no_residue. Qed.
+Print Assumptions C02_no_residue.
+
+(* the full statement (no `hd_error` hypothesis) is false of the model (= the code): *)
+Theorem C02_reassemble_any_order_refuted : exists (F g self : Z) (n : packet Z) (evs : list (ev Z)),
+  HeaderSize <= F /\ 0 <= p_tags n /\ F < size n /\ nfrag F n <= 65535 /\ addressed self n /\
+  Permutation (own_pkts g evs) (split F g n) /\ paced g evs = true /\
+  forallb (fun o => negb (is_deliver o)) (snd (run self [] evs)) = true.
+Proof. exact thm_reassemble_pos0_refuted. Qed.
+Print Assumptions C02_reassemble_any_order_refuted.
+
+(* and so is the statement without pacing (five wake-ups between two fragments, identity order): *)
+Theorem C02_reassemble_unpaced_refuted : exists (F g self : Z) (n : packet Z) (evs : list (ev Z)),
+  HeaderSize <= F /\ 0 <= p_tags n /\ F < size n /\ nfrag F n <= 65535 /\ addressed self n /\
+  own_pkts g evs = split F g n /\ paced g evs = false /\
+  forallb (fun o => negb (is_deliver o)) (own_outs g evs (snd (run self [] evs))) = true.
+Proof. exact thm_reassemble_pacing_refuted. Qed.
+Print Assumptions C02_reassemble_unpaced_refuted.
+
+(* and the statement for limits below the header size (no build has one) *)
+Theorem C02_reassemble_tiny_limit_refuted : exists (F g self : Z) (n : packet Z),
+  0 < F < HeaderSize /\ F < size n /\ addressed self n /\
+  forallb (fun o => negb (is_deliver o)) (snd (run self [] (map EvPkt (split F g n)))) = true.
+Proof. exact thm_tiny_limit_refuted. Qed.
+Print Assumptions C02_reassemble_tiny_limit_refuted.
+
+(* fewer arrivals of the group than fragments (in any order, with anything in between, whatever the
+   pacing): nothing is delivered at any of them *)
+Theorem C02_missing_delivers_nothing : forall (A : Type) (F g self : Z) (n : packet A) (evs : list (ev A)) (st0 : state A),
+  0 < F -> 0 <= p_tags n -> F < size n -> nfrag F n <= 65535 ->
+  lookup g st0 = None ->
+  Forall (fun p => In p (split F g n)) (own_pkts g evs) ->
+  len (own_pkts g evs) < nfrag F n ->
+  Forall (fun o => is_deliver o = false) (own_outs g evs (snd (run self st0 evs))).
+Proof. exact thm_missing_delivers_nothing. Qed.
+Print Assumptions C02_missing_delivers_nothing.
+
+(* "some fragment never arrives": any duplicate-free strict subset of the fragments *)
+Theorem C02_strict_subset_delivers_nothing : forall (A : Type) (F g self : Z) (n : packet A) (evs : list (ev A)) (st0 : state A),
+  0 < F -> 0 <= p_tags n -> F < size n -> nfrag F n <= 65535 ->
+  lookup g st0 = None ->
+  NoDup (own_pkts g evs) -> incl (own_pkts g evs) (split F g n) ->
+  (exists f, In f (split F g n) /\ ~ In f (own_pkts g evs)) ->
+  Forall (fun o => is_deliver o = false) (own_outs g evs (snd (run self st0 evs))).
+Proof. exact thm_strict_subset_delivers_nothing. Qed.
+Print Assumptions C02_strict_subset_delivers_nothing.
+
+(* ---- the sweep ------------------------------------------------------------------------------------- *)
+(* after ANY history, five wake-ups without traffic leave no reassembly state at all *)
+Theorem C02_sweep_removes_stale : forall (A : Type) (self : Z) (evs : list (ev A)),
+  Nat.iter 5 sweep (fst (run self [] evs)) = [].
+Proof. exact thm_sweep_from_empty. Qed.
+Print Assumptions C02_sweep_removes_stale.
+
+Theorem C02_sweep_removes_stale_from : forall (A : Type) (self : Z) (evs : list (ev A)) (st0 : state A),
+  counters_ok st0 -> Nat.iter 5 sweep (fst (run self st0 evs)) = [].
+Proof. exact thm_sweep_removes_stale. Qed.
+Print Assumptions C02_sweep_removes_stale_from.
+
+(* one wake-up decrements the counter of a cluster and removes it exactly when the counter is used up *)
+Theorem C02_sweep_counts_down : forall (A : Type) (g : Z) (st : state A) (c : cluster A),
+  NoDup (map fst st) -> lookup g st = Some c ->
+  (2 <= c_c c <= 256 -> lookup g (sweep st) = Some (mkCluster (c_max c) (c_e c) (c_c c - 1) (c_data c))) /\
+  (c_c c = 1 -> lookup g (sweep st) = None).
+Proof. exact thm_sweep_counts_down. Qed.
+Print Assumptions C02_sweep_counts_down.
+
+(* ---- two facts that justify the shape of the model ----------------------------------------------------- *)
+(* the fuel of recv is never exhausted *)
+Theorem C02_recv_fuel_enough : forall (A : Type) (self : Z) (st : state A) (p : packet A),
+  snd (recv self st p) <> OErr ErrOutOfFuel.
+Proof. exact (@recv_fuel_enough). Qed.
+Print Assumptions C02_recv_fuel_enough.
+
+(* the Add loop of cluster.done (packet by packet) is the filter + concatenation used by cl_done *)
+Theorem C02_join_is_add_loop : forall (A : Type) (tl : list (packet A)) (n : packet A),
+  fold_left padd tl n = join n tl.
+Proof. exact (@join_is_fold_padd). Qed.
+Print Assumptions C02_join_is_add_loop.
+
+(* ---- non-vacuity: F = 60, a 100-byte packet = fragments of 60, 40 and 0 bytes; they arrive as
+   position 0, 2 (the empty one), 1, interleaved with the two fragments of another group and three
+   wake-ups; every hypothesis of C02_reassemble_any_order holds and the computed outcome is the
+   predicted one (both packets delivered once, empty table) *)
+Example C02_nonvacuous :
+  (HeaderSize <= Ex.F /\ 0 <= p_tags Ex.nA /\ Ex.F < size Ex.nA /\ nfrag Ex.F Ex.nA = 3 /\ addressed 1 Ex.nA /\
+   map (fun f => len (p_data f)) (split Ex.F Ex.gA Ex.nA) = [60; 40; 0] /\
+   Permutation (own_pkts Ex.gA Ex.evs_ok) (split Ex.F Ex.gA Ex.nA) /\
+   own_pkts Ex.gA Ex.evs_ok <> split Ex.F Ex.gA Ex.nA /\
+   hd_error (own_pkts Ex.gA Ex.evs_ok) = hd_error (split Ex.F Ex.gA Ex.nA) /\ paced Ex.gA Ex.evs_ok = true) /\
+  run 1 [] Ex.evs_ok =
+    ([], [ONone; ONone; ONone; ONone; ONone; ODeliver (reassembled Ex.nB); ONone; ODeliver (reassembled Ex.nA)]).
+Proof. exact thm_nonvacuous. Qed.
+Print Assumptions C02_nonvacuous.
